@@ -68,11 +68,21 @@ Proof. unfold kill_raises. rewrite survives_false. destruct (proc jb); reflexivi
 (* hence cancel() is: a running process is dead afterwards, whether or not it ignores SIGTERM *)
 Definition kill0 (jb : job) : job :=
   match proc jb with
-  | PRun => mkJob (tmo jb) (stub jb) (spc jb) (wpc jb) PDead (exc jb) (out jb) (sets jb)
+  | PRun => mkJob (tmo jb) (stub jb) (spc jb) (wpc jb) PDead (exc jb) (out jb) (sets jb) (creq jb) (slock jb)
   | _ => jb
   end.
 Lemma kill_unfold jb : kill jb = kill0 jb.
 Proof. unfold kill, kill0. rewrite survives_false. reflexivity. Qed.
+(* cancel() = record the request, then the escalation; the worker's finally block *)
+Definition cancel0 (jb : job) : job := kill0 (set_creq jb).
+Definition fin0 (jb : job) : job := match proc jb with PNone => jb | _ => cancel0 jb end.
+Lemma cancel_unfold jb : cancel jb = cancel0 jb.
+Proof. unfold cancel, cancel0. apply kill_unfold. Qed.
+Lemma fin_unfold jb : fin jb = fin0 jb.
+Proof. unfold fin, fin0. rewrite cancel_unfold. reflexivity. Qed.
+(* run(): the ShutdownError of a job cancelled before its spawn is caught and stored *)
+Lemma refusal_caught_true : refusal_caught = true.
+Proof. reflexivity. Qed.
 
 (* ------------------------------------------------------------------ inversion of step *)
 
@@ -81,7 +91,7 @@ Definition job_of (l : label) : option nat :=
   match l with
   | LSubCheck j | LSubAcquire j | LSubRecheck j | LSubUnlock j | LSubAppend j | LSubStart j
   | LSubRelease j | LSubWait j
-  | LPopen j _ | LExit j | LCommRet j _ | LCommTimeout j | LCommExc j | LFinally j
+  | LSpawnEnter j | LPopen j _ | LExit j | LCommRet j _ | LCommTimeout j | LCommExc j | LFinally j
   | LSetResult j | LSdCancel _ j => Some j
   | _ => None
   end.
@@ -98,9 +108,12 @@ Definition job_trans (fl : bool) (l : label) (jb jb' : job) : Prop :=
                    jb' = set_w (set_spc jb SRelease) WStarted (proc jb) (exc jb) (out jb) (sets jb)
   | LSubRelease _ => spc jb = SRelease /\ jb' = set_spc jb SWait
   | LSubWait _ => spc jb = SWait /\ sets jb <> 0 /\ jb' = set_spc jb (SGot (low_level jb))
-  | LPopen _ ok => wpc jb = WStarted /\
-                   jb' = if ok then set_w jb WComm PRun (exc jb) (out jb) (sets jb)
-                         else set_w jb WFinally (proc jb) (Some EOther) (out jb) (sets jb)
+  | LSpawnEnter _ => wpc jb = WStarted /\
+                     jb' = if creq jb then set_w jb WFinally (proc jb) (Some EOther) (out jb) (sets jb)
+                           else set_slock (set_w jb WSpawn (proc jb) (exc jb) (out jb) (sets jb)) true
+  | LPopen _ ok => wpc jb = WSpawn /\
+                   jb' = set_slock (if ok then set_w jb WComm PRun (exc jb) (out jb) (sets jb)
+                                    else set_w jb WFinally (proc jb) (Some EOther) (out jb) (sets jb)) false
   | LExit _ => proc jb = PRun /\ jb' = set_w jb (wpc jb) PDead (exc jb) (out jb) (sets jb)
   | LCommRet _ a => wpc jb = WComm /\ proc jb = PDead /\
                     jb' = set_w jb WFinally PDead (exc jb) (Some a) (sets jb)
@@ -108,9 +121,9 @@ Definition job_trans (fl : bool) (l : label) (jb jb' : job) : Prop :=
                       jb' = set_w jb WFinally (proc jb) (Some ETimeout) (out jb) (sets jb)
   | LCommExc _ => wpc jb = WComm /\ jb' = set_w jb WFinally (proc jb) (Some EOther) (out jb) (sets jb)
   | LFinally _ => wpc jb = WFinally /\
-                  jb' = set_w (kill0 jb) WSetRes (proc (kill0 jb)) (exc (kill0 jb)) (out (kill0 jb)) (sets (kill0 jb))
+                  jb' = set_w (fin0 jb) WSetRes (proc (fin0 jb)) (exc (fin0 jb)) (out (fin0 jb)) (sets (fin0 jb))
   | LSetResult _ => wpc jb = WSetRes /\ jb' = set_w jb WDone (proc jb) (exc jb) (out jb) (S (sets jb))
-  | LSdCancel _ _ => jb' = kill0 jb
+  | LSdCancel _ _ => slock jb = false /\ jb' = cancel0 jb
   | _ => False
   end.
 
@@ -135,8 +148,10 @@ Lemma step_jobs st l st' :
   end.
 Proof.
   destruct l; simpl; unfold on_job, on_sd; simpl; intros H; try discriminate.
-  all: try (step_inv; simpl in *; rewrite ?kill_unfold, ?timeout_caught_true; eauto 10; fail).
-  all: try (step_inv; simpl in *; rewrite ?kill_unfold, ?timeout_caught_true; do 2 eexists; split; [first [eassumption|reflexivity]|]; split; [reflexivity|]; auto; fail).
+  all: try (step_inv; simpl in *; rewrite ?kill_unfold, ?cancel_unfold, ?fin_unfold, ?timeout_caught_true, ?refusal_caught_true; eauto 10; fail).
+  all: try (step_inv; simpl in *; rewrite ?kill_unfold, ?cancel_unfold, ?fin_unfold, ?timeout_caught_true, ?refusal_caught_true; do 2 eexists; split; [first [eassumption|reflexivity]|]; split; [reflexivity|]; auto; fail).
+  all: try (step_inv; simpl in *; do 2 eexists; (split; [first [eassumption|reflexivity]|]); (split; [reflexivity|]); split; auto;
+            rewrite Heqb; reflexivity).
   step_inv; simpl in *. do 2 eexists; split; [first [eassumption|reflexivity]|]; split; [reflexivity|].
   repeat split; auto. apply Nat.eqb_neq; auto.
 Qed.
@@ -188,6 +203,7 @@ Definition job_ok (jb : job) : Prop :=
   | WNew => proc jb = PNone /\ exc jb = None /\ out jb = None /\ sets jb = 0 /\
             (forall v, spc jb <> SGot v) /\ spc jb <> SRelease /\ spc jb <> SWait
   | WStarted => proc jb = PNone /\ exc jb = None /\ out jb = None /\ sets jb = 0 /\ started_spc (spc jb)
+  | WSpawn => proc jb = PNone /\ exc jb = None /\ out jb = None /\ sets jb = 0 /\ started_spc (spc jb)
   | WComm => proc jb <> PNone /\ exc jb = None /\ out jb = None /\ sets jb = 0 /\ started_spc (spc jb)
   | WFinally => sets jb = 0 /\ started_spc (spc jb) /\ res_ok jb
   | WSetRes => proc jb <> PRun /\ sets jb = 0 /\ started_spc (spc jb) /\ res_ok jb
@@ -198,13 +214,45 @@ Definition job_ok (jb : job) : Prop :=
 
 Lemma job_trans_ok fl l jb jb' : job_ok jb -> job_trans fl l jb jb' -> job_ok jb'.
 Proof.
-  unfold job_ok, started_spc, res_ok, kill0, low_level.
-  destruct jb as [t sb s w p e o n]; destruct l; simpl; intros Hok Ht; try contradiction.
-  all: try (destruct ok).
+  unfold job_ok, started_spc, res_ok, fin0, cancel0, kill0, set_creq, set_slock, low_level.
+  destruct jb as [t sb s w p e o n cr sl]; destruct l; simpl; intros Hok Ht; try contradiction.
+  all: try (destruct ok); try (destruct cr); unfold set_slock in *; simpl in *.
   all: repeat match goal with H : _ /\ _ |- _ => destruct H end; subst; simpl in *.
   all: try (destruct fl); try (destruct w; simpl in *; try discriminate);
        try (destruct p; simpl in *; try discriminate).
   all: intuition (try congruence; try discriminate).
+Qed.
+
+(* the spawn protocol: the spawn lock is held exactly between LSpawnEnter and LPopen; once a cancel
+   has been requested the process does not run and the worker is not about to spawn it *)
+Definition job_ok2 (jb : job) : Prop :=
+  slock jb = (match wpc jb with WSpawn => true | _ => false end) /\
+  (creq jb = true -> proc jb <> PRun /\ wpc jb <> WSpawn).
+
+Lemma job_trans_ok2 fl l jb jb' : job_ok jb -> job_ok2 jb -> job_trans fl l jb jb' -> job_ok2 jb'.
+Proof.
+  unfold job_ok, job_ok2, fin0, cancel0, kill0, set_creq, set_slock.
+  destruct jb as [t sb s w p e o n cr sl]; destruct l; simpl; intros Hok Hok2 Ht; try contradiction.
+  all: try (destruct ok); try (destruct cr); simpl in *.
+  all: repeat match goal with H : _ /\ _ |- _ => destruct H end; subst; simpl in *.
+  all: try (destruct fl); try (destruct w; simpl in *; try discriminate);
+       try (destruct p; simpl in *; try discriminate).
+  all: intuition (try congruence; try discriminate).
+Qed.
+
+Lemma init_jobs_ok2 cfgs : Forall job_ok2 (map init_job cfgs).
+Proof.
+  induction cfgs; simpl; constructor; auto.
+  unfold job_ok2; simpl. split; auto. discriminate.
+Qed.
+
+Lemma step_ok2 st l st' :
+  Forall job_ok (jobs st) -> Forall job_ok2 (jobs st) -> step st l = Some st' -> Forall job_ok2 (jobs st').
+Proof.
+  intros Hok Hok2 H. apply step_jobs in H. destruct (job_of l).
+  - destruct H as (jb & jb' & Hn & Hj & Ht). rewrite Hj. apply Forall_set_nth; auto.
+    eapply job_trans_ok2; eauto; eapply Forall_nth; eauto.
+  - rewrite H; auto.
 Qed.
 
 Lemma init_jobs_ok cfgs : Forall job_ok (map init_job cfgs).
@@ -242,13 +290,10 @@ Proof. destruct l; simpl; lia. Qed.
 Lemma job_trans_sets fl l jb jb' i :
   job_of l = Some i -> job_trans fl l jb jb' -> sets jb' = sets jb + deliveries i [l].
 Proof.
-  destruct jb as [t sb s w p e o n]; unfold kill0; destruct l; simpl; intros Hi Ht; try discriminate;
+  destruct jb as [t sb s w p e o n cr sl]; unfold fin0, cancel0, kill0, set_creq, set_slock; destruct l; simpl; intros Hi Ht; try discriminate;
     inversion Hi; subst;
     repeat match goal with H : _ /\ _ |- _ => destruct H end; subst; simpl in *; try lia.
-  - destruct ok; simpl; lia.
-  - destruct p; simpl; lia.
-  - rewrite Nat.eqb_refl. lia.
-  - destruct p; simpl; lia.
+  all: try (destruct ok); try (destruct cr); try (destruct p); simpl; try rewrite Nat.eqb_refl; try lia.
 Qed.
 
 Lemma deliveries_other l i j : job_of l = Some i -> i <> j -> deliveries j [l] = 0.
@@ -309,8 +354,8 @@ Definition tmo_inv (jb : job) : Prop :=
 
 Lemma job_trans_tmo fl l jb jb' : tmo_inv jb -> job_trans fl l jb jb' -> tmo_inv jb'.
 Proof.
-  unfold tmo_inv, kill0. destruct jb as [t sb s w p e o n]; destruct l; simpl; intros Hi Ht; try contradiction.
-  all: try (destruct ok).
+  unfold tmo_inv, fin0, cancel0, kill0, set_creq, set_slock. destruct jb as [t sb s w p e o n cr sl]; destruct l; simpl; intros Hi Ht; try contradiction.
+  all: try (destruct ok); try (destruct cr); unfold set_slock in *; simpl in *.
   all: repeat match goal with H : _ /\ _ |- _ => destruct H end; subst; simpl in *.
   all: try (destruct p; simpl); intuition (try congruence; try discriminate).
 Qed.
@@ -376,9 +421,9 @@ Lemma job_trans_rank fl l jb jb' :
        | _ => pre_append jb' <= pre_append jb
        end.
 Proof.
-  unfold rank_job, pre_append, kill0.
-  destruct jb as [t sb s w p e o n]; destruct l; simpl; intros Ht; try contradiction.
-  all: try (destruct ok).
+  unfold rank_job, pre_append, fin0, cancel0, kill0, set_creq, set_slock.
+  destruct jb as [t sb s w p e o n cr sl]; destruct l; simpl; intros Ht; try contradiction.
+  all: try (destruct ok); try (destruct cr); unfold set_slock in *; simpl in *.
   all: repeat match goal with H : _ /\ _ |- _ => destruct H end; subst; simpl in *.
   all: try (destruct fl); try (destruct p; simpl in *); try (destruct s; simpl in *); try (destruct w; simpl in *); try lia.
 Qed.
@@ -460,10 +505,10 @@ Proof.
 Qed.
 
 Lemma rank_init cfgs waits :
-  rank (init cfgs waits) = 17 * length cfgs + (6 + length cfgs) * length waits.
+  rank (init cfgs waits) = 19 * length cfgs + (6 + length cfgs) * length waits.
 Proof.
   unfold rank, phi, init; simpl.
-  rewrite (sum_const rank_job 17), (sum_const pre_append 1), !map_length.
+  rewrite (sum_const rank_job 19), (sum_const pre_append 1), !map_length.
   - rewrite (sum_const _ (6 + 1 * length cfgs)), map_length; [lia|].
     intros x Hx. apply in_map_iff in Hx. destruct Hx as (w & <- & _). reflexivity.
   - intros x Hx. apply in_map_iff in Hx. destruct Hx as (w & <- & _). reflexivity.
@@ -472,15 +517,10 @@ Qed.
 
 Lemma schedules_bounded cfgs waits sched st :
   run (init cfgs waits) sched = Some st ->
-  length sched <= 17 * length cfgs + (6 + length cfgs) * length waits.
+  length sched <= 19 * length cfgs + (6 + length cfgs) * length waits.
 Proof. intros H. apply run_rank in H. rewrite rank_init in H. lia. Qed.
 
-(* ------------------------------------------------------------------ the refuted clause (F6): witness *)
-
-(* F6: cancel() is a no-op while self.process is None *)
-Definition witness_process : list label :=
-  [LSubCheck 0; LSubAcquire 0; LSubRecheck 0; LSubAppend 0; LSubStart 0; LSubRelease 0;
-   LSdSet 0; LSdAcquire 0; LSdCancel 0 0; LSdReturn 0; LPopen 0 true].
+(* ------------------------------------------------------------------ observables used in the statements *)
 
 Definition running (st : state) (j : nat) : bool :=
   match nth_error (jobs st) j with
@@ -492,20 +532,6 @@ Definition returned (st : state) (k : nat) : bool :=
   | Some s => match dpc s with DDone => true | _ => false end
   | None => false
   end.
-
-Lemma process_after_shutdown_witness :
-  exists st, run (init [(false, false)] [false]) witness_process = Some st /\
-             ~ accepted_after_return witness_process /\ spawned_after_return witness_process /\
-             returned st 0 = true /\ running st 0 = true.
-Proof.
-  eexists. split; [vm_compute; reflexivity|]. split; [|split; [|split; reflexivity]].
-  - intros (pre & post & j & k & Heq & Hin).
-    unfold witness_process in Heq.
-    repeat (destruct pre as [|? pre]; simpl in Heq; [inversion Heq; subst; simpl in Hin; intuition discriminate|
-            inversion Heq; subst; clear Heq; rename H1 into Heq]).
-  - exists [LSubCheck 0; LSubAcquire 0; LSubRecheck 0; LSubAppend 0; LSubStart 0; LSubRelease 0; LSdSet 0; LSdAcquire 0; LSdCancel 0 0; LSdReturn 0],
-           [], 0, 0. split; [reflexivity|]. simpl; auto 12.
-Qed.
 
 (* ------------------------------------------------------------------ global invariant, deadlock-freedom *)
 
@@ -524,6 +550,7 @@ Definition registered (st : state) (j : nat) : Prop :=
 
 Record ginv (st : state) : Prop := {
   g_jobs : Forall job_ok (jobs st);
+  g_jobs2 : Forall job_ok2 (jobs st);
   g_hold : forall i jb, nth_error (jobs st) i = Some jb -> holding (spc jb) = true -> lock st = Some (OSub i);
   g_sub  : forall i, lock st = Some (OSub i) -> exists jb, nth_error (jobs st) i = Some jb /\ holding (spc jb) = true;
   g_canc : forall k s, nth_error (sds st) k = Some s -> sd_holding (dpc s) = true -> lock st = Some (OSd k);
@@ -559,8 +586,8 @@ Lemma job_trans_spc fl l jb jb' :
    | LSubAppend _ => post_append (spc jb') = true
    | _ => True end).
 Proof.
-  unfold kill0. destruct jb as [t sb s w p e o n]; destruct l; simpl; intros Ht; try contradiction.
-  all: try (destruct ok).
+  unfold fin0, cancel0, kill0, set_creq, set_slock. destruct jb as [t sb s w p e o n cr sl]; destruct l; simpl; intros Ht; try contradiction.
+  all: try (destruct ok); try (destruct cr); unfold set_slock in *; simpl in *.
   all: repeat match goal with H : _ /\ _ |- _ => destruct H end; subst; simpl in *.
   all: try (destruct fl); try (destruct p; simpl in *); auto.
   all: destruct s; simpl in *; auto.
@@ -593,6 +620,15 @@ Proof.
     destruct Hin as [Hx|Hin]; [left; auto | right; eapply IHl; eauto].
 Qed.
 
+Lemma remove1_other j0 j l l' : remove1 j0 l = Some l' -> In j l -> j <> j0 -> In j l'.
+Proof.
+  revert l'; induction l; simpl; intros l' H Hin Hne; try contradiction.
+  destruct (Nat.eqb_spec a j0).
+  - inversion H; subst. destruct Hin; auto. congruence.
+  - destruct (remove1 j0 l) eqn:E; try discriminate. inversion H; subst.
+    destruct Hin as [->|Hin]; [left; auto | right; eauto].
+Qed.
+
 Lemma sd_trans_pend st l s s' j :
   sd_trans st l s s' -> In j (pend_of (dpc s')) -> In j (pend_of (dpc s)) \/ In j (reg st).
 Proof.
@@ -621,6 +657,7 @@ Lemma init_ginv cfgs waits : ginv (init cfgs waits).
 Proof.
   constructor; simpl.
   - apply init_jobs_ok.
+  - apply init_jobs_ok2.
   - intros i jb Hn Hh. apply nth_error_In, in_map_iff in Hn. destruct Hn as (x & <- & _). discriminate.
   - discriminate.
   - intros k s Hn Hd. apply nth_error_In, in_map_iff in Hn. destruct Hn as (x & <- & _). discriminate.
@@ -719,6 +756,7 @@ Proof.
   pose proof (step_globals _ _ _ H) as (HR & _).
   constructor.
   - eapply step_ok; eauto. apply G.
+  - eapply step_ok2; eauto; apply G.
   - (* g_hold *)
     intros i jb' Hn Hh. destruct (step_job_at _ _ _ _ _ H Hn) as [(Ho & Hne) | (Hje & jb & Ho & Ht)].
     + pose proof (g_hold _ G _ _ Ho Hh) as Hl.
@@ -814,7 +852,11 @@ Proof.
       * fire (LSdReturn k). rewrite Hn, Ed. eauto.
       * assert (Hin : In j (pend_of (dpc s))) by (rewrite Ed; simpl; auto).
         destruct (g_pend _ G _ _ Hn j Hin) as (jb & Hj & _).
-        fire (LSdCancel k j). rewrite Hn, Ed. simpl. rewrite Nat.eqb_refl, Hj. eauto.
+        destruct (slock jb) eqn:Esl.
+        -- pose proof (Forall_nth _ _ _ _ (g_jobs2 _ G) Hj) as (Hsl & _). rewrite Esl in Hsl.
+           destruct (wpc jb) eqn:Ew; try discriminate.
+           fire (LPopen j true). rewrite Hj, Ew. eauto.
+        -- fire (LSdCancel k j). rewrite Hn, Ed. simpl. rewrite Nat.eqb_refl, Hj, Esl. eauto.
     + fire (LSdSnap k). rewrite Hn, Ed. eauto.
     + fire (LSdRelease k). rewrite Hn, Ed. eauto.
 Qed.
@@ -823,6 +865,7 @@ Lemma worker_moves st j jb :
   nth_error (jobs st) j = Some jb -> wpc jb <> WNew -> wpc jb <> WDone -> wpc jb <> WDead -> can_step st.
 Proof.
   intros Hn H1 H2 H3. destruct (wpc jb) eqn:Ew; try congruence.
+  - fire (LSpawnEnter j). rewrite Hn, Ew. destruct (creq jb); eauto.
   - fire (LPopen j true). rewrite Hn, Ew. eauto.
   - fire (LCommExc j). rewrite Hn, Ew. eauto.
   - fire (LFinally j). rewrite Hn, Ew, kill_raises_false. simpl. eauto.
@@ -847,6 +890,7 @@ Proof.
   - fire (LSubRelease j). rewrite Hn, Es. eauto.
   - destruct (wpc jb) eqn:Ew.
     + exfalso. unfold job_ok in Hok. rewrite Ew, Es in Hok. intuition congruence.
+    + eapply worker_moves; eauto; congruence.
     + eapply worker_moves; eauto; congruence.
     + eapply worker_moves; eauto; congruence.
     + eapply worker_moves; eauto; congruence.
@@ -962,11 +1006,11 @@ Proof.
     try (destruct HJ as (jb & jb' & Hn & _);
          apply in_or_app; left; apply in_flat_map; exists j; split;
          [apply in_seq; split; [lia|]; simpl; apply nth_error_Some; congruence|];
-         try (destruct ok); try (destruct a); simpl; auto 20; fail);
+         try (destruct ok); try (destruct a); simpl; auto 40; fail);
     try (destruct HG as (s & s' & Hn & _);
          apply in_or_app; right; apply in_flat_map; exists k; split;
          [apply in_seq; split; [lia|]; simpl; apply nth_error_Some; congruence|];
-         simpl; auto 20; fail).
+         simpl; auto 40; fail).
   (* LSdCancel k j *)
   destruct HJ as (jb & jb' & Hnj & _). destruct HG as (s & s' & Hn & _).
   apply in_or_app; right; apply in_flat_map; exists k; split.
@@ -1031,16 +1075,6 @@ Proof.
   intros v Hs. apply Hv in Hs. subst. split; [reflexivity|discriminate].
 Qed.
 
-Lemma no_process_after_shutdown_refuted :
-  exists cfgs waits sched st k j,
-    run (init cfgs waits) sched = Some st /\ ~ accepted_after_return sched /\
-    spawned_after_return sched /\ returned st k = true /\ running st j = true.
-Proof.
-  destruct process_after_shutdown_witness as (st & Hr & Ha & Hs & Hk & Hj).
-  exists [(false, false)], [false], witness_process, st, 0, 0. auto.
-Qed.
-
-
 (* ------------------------------------------------------------------ after a shutdown request: the repaired clauses *)
 
 Lemma run_split st a l b st' :
@@ -1081,6 +1115,33 @@ Definition sd_ok (s : sd) : Prop :=
   | _ => True
   end.
 
+Definition creq_at (st : state) (j : nat) : bool :=
+  match nth_error (jobs st) j with Some jb => creq jb | None => false end.
+
+Lemma job_trans_creq fl l jb jb' : job_trans fl l jb jb' ->
+  (creq jb = true -> creq jb' = true) /\ (match l with LSdCancel _ _ => creq jb' = true | _ => True end).
+Proof.
+  unfold fin0, cancel0, kill0, set_creq, set_slock.
+  destruct jb as [t sb s w p e o n cr sl]; destruct l; simpl; intros Ht; try contradiction.
+  all: try (destruct ok); try (destruct cr); simpl in *.
+  all: repeat match goal with H : _ /\ _ |- _ => destruct H end; subst; simpl in *.
+  all: try (destruct p; simpl in * ); auto.
+Qed.
+
+Lemma creq_mono st l st' j : step st l = Some st' -> creq_at st j = true -> creq_at st' j = true.
+Proof.
+  intros H Hc. unfold creq_at in *. destruct (nth_error (jobs st) j) as [jb|] eqn:Hn; try discriminate.
+  destruct (step_job_fwd _ _ _ _ _ H Hn) as [(Hn' & _) | (_ & jb' & Hn' & Ht)]; rewrite Hn'; auto.
+  apply (job_trans_creq _ _ _ _ Ht); auto.
+Qed.
+
+Lemma cancel_sets_creq st k j st' : step st (LSdCancel k j) = Some st' -> creq_at st' j = true.
+Proof.
+  intros H. pose proof (step_jobs _ _ _ H) as HJ. simpl in HJ. destruct HJ as (jb & jb' & Hn & Hjs & Ht).
+  unfold creq_at. rewrite Hjs, nth_set_nth_eq; [|apply nth_error_Some; congruence].
+  destruct Ht as (_ & ->). unfold cancel0, kill0, set_creq; simpl. destruct (proc jb); reflexivity.
+Qed.
+
 Record sinv (st : state) : Prop := {
   s_flag : forall k s, nth_error (sds st) k = Some s -> dpc s <> DSet -> flag st = true;
   s_sdok : forall k s, nth_error (sds st) k = Some s -> sd_ok s;
@@ -1090,6 +1151,13 @@ Record sinv (st : state) : Prop := {
              match dpc s with
              | DUnlock pend | DJoin pend => forall j, In j (reg st) -> In j pend \/ finished st j = true
              | DDone => forall j, In j (reg st) -> finished st j = true
+             | _ => True
+             end;
+  (* shutdown(wait=False): every registered job still has its cancel task pending, or the cancel was requested *)
+  s_cancel : forall k s, nth_error (sds st) k = Some s -> swait s = false ->
+             match dpc s with
+             | DCancel pend => forall j, In j (reg st) -> In j pend \/ creq_at st j = true
+             | DDone => forall j, In j (reg st) -> creq_at st j = true
              | _ => True
              end
 }.
@@ -1170,8 +1238,8 @@ Lemma job_trans_closed l jb jb' :
   job_trans true l jb jb' -> spc jb <> SAppend -> spc jb <> SStart ->
   spc jb' <> SAppend /\ spc jb' <> SStart.
 Proof.
-  unfold kill0. destruct jb as [t sb s w p e o n]; destruct l; simpl; intros Ht H1 H2; try contradiction.
-  all: try (destruct ok).
+  unfold fin0, cancel0, kill0, set_creq, set_slock. destruct jb as [t sb s w p e o n cr sl]; destruct l; simpl; intros Ht H1 H2; try contradiction.
+  all: try (destruct ok); try (destruct cr); unfold set_slock in *; simpl in *.
   all: repeat match goal with H : _ /\ _ |- _ => destruct H end; subst; simpl in *.
   all: try (destruct p; simpl in *); split; congruence.
 Qed.
@@ -1180,8 +1248,8 @@ Lemma job_trans_post fl l jb jb' :
   job_trans fl l jb jb' -> post_append (spc jb') = true ->
   post_append (spc jb) = true \/ exists i, l = LSubAppend i.
 Proof.
-  unfold kill0. destruct jb as [t sb s w p e o n]; destruct l; simpl; intros Ht Hp; try contradiction.
-  all: try (destruct ok).
+  unfold fin0, cancel0, kill0, set_creq, set_slock. destruct jb as [t sb s w p e o n cr sl]; destruct l; simpl; intros Ht Hp; try contradiction.
+  all: try (destruct ok); try (destruct cr); unfold set_slock in *; simpl in *.
   all: repeat match goal with H : _ /\ _ |- _ => destruct H end; subst; simpl in *.
   all: try (destruct fl; simpl in * ); try (destruct p; simpl in * ); eauto; try discriminate.
 Qed.
@@ -1193,6 +1261,7 @@ Proof.
   - intros k s Hn. apply nth_error_In, in_map_iff in Hn. destruct Hn as (x & <- & _). exact I.
   - intros (k & s & Hn & Hp). apply nth_error_In, in_map_iff in Hn. destruct Hn as (x & <- & _). discriminate.
   - intros j jb Hn Hp. apply nth_error_In, in_map_iff in Hn. destruct Hn as (x & <- & _). discriminate.
+  - intros k s Hn Hw. apply nth_error_In, in_map_iff in Hn. destruct Hn as (x & <- & _). exact I.
   - intros k s Hn Hw. apply nth_error_In, in_map_iff in Hn. destruct Hn as (x & <- & _). exact I.
 Qed.
 
@@ -1274,6 +1343,32 @@ Proof.
       * (* return *) destruct Ht as ([Hd|Hd] & ->); rewrite Hd in *.
         -- congruence.
         -- rewrite HR. intros j Hin. destruct (Hj j Hin) as [[]|Hfin]. eapply finished_mono; eauto.
+  - (* s_cancel *)
+    intros k s' Hn Hw. destruct (step_sd_at _ _ _ _ _ H Hn) as [(Ho & _) | (Hke & s & Ho & Ht)].
+    + pose proof (s_cancel _ S _ _ Ho Hw) as Hj.
+      destruct (dpc s') eqn:Ed; auto.
+      all: assert (C : closed st) by (exists k, s'; rewrite Ed; auto);
+           rewrite (reg_same_if_closed _ _ _ S C H); intros j Hin; specialize (Hj j Hin).
+      * destruct Hj; auto. right. eapply creq_mono; eauto.
+      * eapply creq_mono; eauto.
+    + pose proof (s_sdok _ S _ _ Ho) as Hok. unfold sd_ok in Hok.
+      destruct Ht as (Hsw & Ht). rewrite Hsw in Hw. pose proof (s_cancel _ S _ _ Ho Hw) as Hj.
+      destruct l; try contradiction; simpl in HR.
+      * (* set *) destruct Ht as (_ & ->). exact I.
+      * (* acquire *) destruct Ht as (_ & ->). rewrite Hw. rewrite HR. intros j Hin. auto.
+      * (* cancel *) destruct Ht as (p0 & p1 & Hd & Hrm & ->). rewrite Hd in Hj. rewrite HR.
+        simpl in Hke. inversion Hke; subst k0.
+        intros j0 Hin. destruct (Hj j0 Hin) as [Hp | Hc].
+        -- destruct (Nat.eq_dec j0 j) as [->|Hne].
+           ++ right. eapply cancel_sets_creq; eauto.
+           ++ left. eapply remove1_other; eauto.
+        -- right. eapply creq_mono; eauto.
+      * (* snap *) destruct Ht as (_ & ->). exact I.
+      * (* release *) destruct Ht as (pend & _ & ->). exact I.
+      * (* join *) destruct Ht as (j0 & rest & _ & _ & ->). exact I.
+      * (* return *) destruct Ht as ([Hd|Hd] & ->); rewrite Hd in *.
+        -- rewrite HR. intros j Hin. destruct (Hj j Hin) as [[]|Hc]. eapply creq_mono; eauto.
+        -- congruence.
 Qed.
 
 Definition inv (st : state) : Prop := ginv st /\ sinv st.
@@ -1403,7 +1498,7 @@ Qed.
 
 (* (3) shutdown(wait=False) / cancel(): a solver process that existed when the cancel task
    for its job ran is dead afterwards, for good *)
-Definition spawned_b (jb : job) : bool := match wpc jb with WNew | WStarted => false | _ => true end.
+Definition spawned_b (jb : job) : bool := match wpc jb with WNew | WStarted | WSpawn => false | _ => true end.
 Definition spawned_at (st : state) (j : nat) : Prop :=
   exists jb, nth_error (jobs st) j = Some jb /\ spawned_b jb = true.
 Definition settled_at (st : state) (j : nat) : Prop :=
@@ -1414,8 +1509,8 @@ Lemma job_trans_spawned fl l jb jb' :
   spawned_b jb' = true /\ (proc jb <> PRun -> proc jb' <> PRun) /\
   (match l with LSdCancel _ _ => proc jb' <> PRun | _ => True end).
 Proof.
-  unfold kill0, spawned_b. destruct jb as [t sb s w p e o n]; destruct l; simpl; intros Ht Hs; try contradiction.
-  all: try (destruct ok).
+  unfold fin0, cancel0, kill0, set_creq, set_slock, spawned_b. destruct jb as [t sb s w p e o n cr sl]; destruct l; simpl; intros Ht Hs; try contradiction.
+  all: try (destruct ok); try (destruct cr); unfold set_slock in *; simpl in *.
   all: repeat match goal with H : _ /\ _ |- _ => destruct H end; subst; simpl in *; try discriminate.
   all: try (destruct p; simpl in * ); repeat split; auto; try congruence.
 Qed.
@@ -1479,82 +1574,6 @@ Qed.
 
 (* ... and shutdown() has run such a cancel task for every process that existed when it took
    the lock, by the time it returns (either kind of shutdown) *)
-Definition nowait_inv (k j : nat) (st : state) : Prop :=
-  exists s, nth_error (sds st) k = Some s /\
-    match dpc s with
-    | DCancel pend => In j pend \/ settled_at st j
-    | DDone => swait s = false /\ settled_at st j
-    | _ => False
-    end.
-
-Lemma remove1_other j0 j l l' : remove1 j0 l = Some l' -> In j l -> j <> j0 -> In j l'.
-Proof.
-  revert l'; induction l; simpl; intros l' H Hin Hne; try contradiction.
-  destruct (Nat.eqb_spec a j0).
-  - inversion H; subst. destruct Hin; auto. congruence.
-  - destruct (remove1 j0 l) eqn:E; try discriminate. inversion H; subst.
-    destruct Hin as [->|Hin]; [left; auto | right; eauto].
-Qed.
-
-Lemma nowait_inv_step st l st' k j :
-  sinv st -> step st l = Some st' -> spawned_at st j -> nowait_inv k j st -> nowait_inv k j st'.
-Proof.
-  intros S H Sp (s & Hn & Hm). unfold nowait_inv.
-  destruct (step_sd_fwd _ _ _ _ _ H Hn) as [(Hn' & _) | (Hke & s' & Hn' & (Hsw & Ht))].
-  - exists s. split; auto. destruct (dpc s); auto.
-    + destruct Hm; auto. right. eapply settled_step; eauto.
-    + destruct Hm. split; auto. eapply settled_step; eauto.
-  - exists s'. split; auto. pose proof (s_sdok _ S _ _ Hn) as Hok. unfold sd_ok in Hok.
-    destruct l; try contradiction.
-    + destruct Ht as (Hd & _). rewrite Hd in Hm. contradiction.
-    + destruct Ht as (Hd & _). rewrite Hd in Hm. contradiction.
-    + (* cancel k j0 *)
-      simpl in Hke. inversion Hke; subst k0.
-      destruct Ht as (pend & pend' & Hd & Hrm & Hd'). rewrite Hd in Hm, Hok. rewrite Hd'.
-      destruct Hm as [Hin | Hst]; [|right; eapply settled_step; eauto].
-      destruct (Nat.eq_dec j j0) as [->|Hne].
-      * right. eapply cancel_settles; eauto.
-      * left. eapply remove1_other; eauto.
-    + destruct Ht as (Hd & _). rewrite Hd in Hm. contradiction.
-    + destruct Ht as (pend & Hd & _). rewrite Hd in Hm. contradiction.
-    + destruct Ht as (j0 & rest & Hd & _). rewrite Hd in Hm. contradiction.
-    + (* return *)
-      destruct Ht as ([Hd|Hd] & Hd'); rewrite Hd in Hm, Hok; rewrite Hd'.
-      * destruct Hm as [[]|Hst]. split; [congruence|]. eapply settled_step; eauto.
-      * contradiction.
-Qed.
-
-Lemma shutdown_kills_spawned cfgs waits sched st k j :
-  run (init cfgs waits) sched = Some st -> spawned_before_acquire k j sched ->
-  returned st k = true -> running st j = false.
-Proof.
-  intros H (pre & post & -> & Hin) Hr.
-  destruct (run_split _ _ _ _ _ H) as (s1 & s2 & Ha & Hs & Hb).
-  assert (I1 : inv s1) by (eapply run_inv; [apply init_inv|eauto]).
-  assert (Sp1 : spawned_at s1 j) by (eapply spawned_after_popen; eauto).
-  pose proof (step_globals _ _ _ Hs) as (_ & HG). simpl in HG.
-  destruct HG as (s & s' & Hn & Hss & Hsw & Hd & Hd').
-  destruct (swait s) eqn:Ew.
-  - (* wait=True: nothing runs at all after the return *)
-    assert (Hw : nth_error waits k = Some true).
-    { rewrite <- Ew. eapply swait_of; eauto. }
-    apply (wait_shutdown_complete _ _ _ _ _ H Hw Hr j).
-  - (* wait=False *)
-    assert (I2 : inv s2) by (eapply step_inv_pres; eauto).
-    assert (Sp2 : spawned_at s2 j) by (eapply spawned_step; eauto).
-    assert (N2 : nowait_inv k j s2).
-    { exists s'. split; [rewrite Hss; apply nth_set_nth_eq; apply nth_error_Some; congruence|].
-      rewrite Hd'. left. destruct Sp1 as (jb & Hjb & Hsp).
-      eapply job_running_registered; eauto. unfold spawned_b in Hsp. destruct (wpc jb); congruence. }
-    assert (Hend : inv st /\ (spawned_at st j /\ nowait_inv k j st)).
-    { eapply (run_stable inv (fun x => spawned_at x j /\ nowait_inv k j x)); eauto.
-      - intros; eapply step_inv_pres; eauto.
-      - intros x l x' (Gx & Sx) (A & B) Hx. split; [eapply spawned_step; eauto|eapply nowait_inv_step; eauto]. }
-    destruct Hend as (_ & _ & (sf & Hnf & Hm)).
-    unfold returned in Hr. rewrite Hnf in Hr. destruct (dpc sf); try discriminate.
-    apply settled_not_running. apply Hm.
-Qed.
-
 (* (4) shutdown() never terminates with an exception *)
 Lemma shutdown_never_raises cfgs waits sched st k :
   run (init cfgs waits) sched = Some st -> ~ shutdown_raised k sched.
@@ -1563,103 +1582,56 @@ Proof.
   simpl in Hs. discriminate.
 Qed.
 
-(* (5) shutdown(wait=False) has run a cancel task for EVERY registered job when it returns; hence
-   the only way a process can run after its return is the F6 window: the process was spawned
-   after the cancel task of its job had run *)
+(* (5) the full clause (was refuted: F6, repaired by 1eaaf0c): when ANY shutdown() call has returned no
+   solver process runs -- and none will be spawned: a job whose cancel was requested never spawns *)
+Lemma creq_not_running st j jb :
+  inv st -> nth_error (jobs st) j = Some jb -> creq jb = true -> proc jb <> PRun /\ wpc jb <> WSpawn.
+Proof. intros (G & _) Hn Hc. apply (Forall_nth _ _ _ _ (g_jobs2 _ G) Hn); auto. Qed.
 
-Lemma run_snoc st sched l st' :
-  run st (sched ++ [l]) = Some st' -> exists st0, run st sched = Some st0 /\ step st0 l = Some st'.
+Lemma no_process_after_shutdown cfgs waits sched st k :
+  run (init cfgs waits) sched = Some st -> returned st k = true -> forall j, running st j = false.
 Proof.
-  rewrite run_app. destruct (run st sched) as [st0|]; try discriminate. simpl.
-  destruct (step st0 l) eqn:E; try discriminate. intros H; inversion H; subst. eauto.
-Qed.
-
-Lemma running_spawned cfgs waits sched : forall st j,
-  run (init cfgs waits) sched = Some st -> running st j = true -> In (LPopen j true) sched.
-Proof.
-  induction sched as [|l sched IH] using rev_ind; intros st j H Hr.
-  - simpl in H. inversion H; subst. unfold running, init in Hr. simpl in Hr.
-    destruct (nth_error (map init_job cfgs) j) eqn:E; try discriminate.
-    apply nth_error_In, in_map_iff in E. destruct E as (x & <- & _). discriminate.
-  - destruct (run_snoc _ _ _ _ H) as (st0 & H0 & Hs). apply in_or_app.
-    destruct (running st0 j) eqn:Hr0; [left; eauto|]. right.
-    unfold running in Hr, Hr0. destruct (nth_error (jobs st) j) as [jb'|] eqn:Hn; try discriminate.
-    destruct (step_job_at _ _ _ _ _ Hs Hn) as [(Ho & _) | (Hje & jb & Ho & Ht)].
-    + rewrite Ho in Hr0. congruence.
-    + rewrite Ho in Hr0. clear - Hje Ht Hr Hr0.
-      destruct jb as [t sb s w p e o n]; unfold kill0 in Ht; destruct l; simpl in *; try contradiction;
-        inversion Hje; subst;
-        try (destruct ok);
-        repeat match goal with H : _ /\ _ |- _ => destruct H end; subst; simpl in *;
-        try (destruct p; simpl in * ); try discriminate; auto.
-Qed.
-
-Lemma every_registered_cancelled cfgs waits k sched : forall st s,
-  run (init cfgs waits) sched = Some st -> nth_error (sds st) k = Some s -> swait s = false ->
-  match dpc s with
-  | DCancel pend => forall j, In j (reg st) -> In j pend \/ In (LSdCancel k j) sched
-  | DDone => forall j, In j (reg st) -> In (LSdCancel k j) sched
-  | _ => True
-  end.
-Proof.
-  induction sched as [|l sched IH] using rev_ind; intros st s H Hn Hw.
-  - simpl in H. inversion H; subst. simpl in Hn.
-    apply nth_error_In, in_map_iff in Hn. destruct Hn as (x & <- & _). exact I.
-  - destruct (run_snoc _ _ _ _ H) as (st0 & H0 & Hs).
-    assert (I0 : inv st0) by (eapply run_inv; [apply init_inv|eauto]). destruct I0 as (G0 & S0).
-    destruct (step_sd_at _ _ _ _ _ Hs Hn) as [(Ho & _) | (Hke & s0 & Ho & (Hsw & Ht))].
-    + specialize (IH _ _ H0 Ho Hw).
-      destruct (dpc s) eqn:Ed; auto.
-      all: assert (C : closed st0) by (exists k, s; rewrite Ed; auto);
-           rewrite (reg_same_if_closed _ _ _ S0 C Hs); intros j Hin; specialize (IH j Hin).
-      * destruct IH; auto. right. apply in_or_app; auto.
-      * apply in_or_app; auto.
-    + rewrite Hsw in Hw. specialize (IH _ _ H0 Ho Hw).
-      pose proof (s_sdok _ S0 _ _ Ho) as Hok. unfold sd_ok in Hok.
-      pose proof (step_globals _ _ _ Hs) as (HR & _).
-      destruct l; try contradiction; simpl in HR.
-      * destruct Ht as (_ & ->). exact I.
-      * destruct Ht as (_ & ->). rewrite Hw. rewrite HR. intros j Hin. auto.
-      * destruct Ht as (pend & pend' & Hd & Hrm & ->). rewrite Hd in IH. rewrite HR.
-        simpl in Hke. inversion Hke; subst k0.
-        intros j0 Hin. destruct (IH j0 Hin) as [Hp | Hc].
-        -- destruct (Nat.eq_dec j0 j) as [->|Hne].
-           ++ right. apply in_or_app. right. simpl; auto.
-           ++ left. eapply remove1_other; eauto.
-        -- right. apply in_or_app; auto.
-      * destruct Ht as (_ & ->). exact I.
-      * destruct Ht as (pend & _ & ->). exact I.
-      * destruct Ht as (j0 & rest & _ & _ & ->). exact I.
-      * destruct Ht as ([Hd|Hd] & ->); rewrite Hd in IH, Hok.
-        -- rewrite HR. intros j Hin. destruct (IH j Hin) as [[]|Hc]. apply in_or_app; auto.
-        -- congruence.
-Qed.
-
-Lemma nowait_only_late_spawn cfgs waits sched st k j :
-  run (init cfgs waits) sched = Some st -> nth_error waits k = Some false ->
-  returned st k = true -> running st j = true ->
-  exists pre mid post, sched = pre ++ LSdCancel k j :: mid ++ LPopen j true :: post.
-Proof.
-  intros H Hw Hr Hrun.
+  intros H Hr j.
   assert (I : inv st) by (eapply run_inv; [apply init_inv|eauto]).
-  unfold returned in Hr. destruct (nth_error (sds st) k) as [s|] eqn:Hn; try discriminate.
+  pose proof Hr as Hr0. unfold returned in Hr. destruct (nth_error (sds st) k) as [s|] eqn:Hn; try discriminate.
   destruct (dpc s) eqn:Hd; try discriminate.
-  pose proof (swait_of _ _ _ _ _ _ H Hn) as Hw'. rewrite Hw in Hw'. inversion Hw' as [Hsw].
-  pose proof (every_registered_cancelled _ _ _ _ _ _ H Hn (eq_sym Hsw)) as Hc. rewrite Hd in Hc.
-  assert (Hreg : In j (reg st)).
-  { unfold running in Hrun. destruct (nth_error (jobs st) j) as [jb|] eqn:Hjb; try discriminate.
-    apply (job_running_registered st j jb I Hjb).
-    destruct I as (G & _). pose proof (Forall_nth _ _ _ _ (g_jobs _ G) Hjb) as Hok. unfold job_ok in Hok.
-    intros Hwn. rewrite Hwn in Hok. destruct Hok as (Hp & _). rewrite Hp in Hrun. discriminate. }
-  specialize (Hc j Hreg). apply in_split in Hc. destruct Hc as (pre & rest & ->).
-  pose proof (running_spawned _ _ _ _ _ H Hrun) as Hp.
-  apply in_app_or in Hp. destruct Hp as [Hp | [Hp | Hp]]; try discriminate.
-  - exfalso. assert (Hk : running st j = false).
-    { eapply cancel_kills; eauto. exists pre, rest, k. auto. }
-    congruence.
-  - apply in_split in Hp. destruct Hp as (mid & post & ->). exists pre, mid, post. reflexivity.
+  pose proof (swait_of _ _ _ _ _ _ H Hn) as Hw.
+  destruct (swait s) eqn:Ew.
+  - apply (wait_shutdown_complete _ _ _ _ _ H Hw Hr0 j).
+  - destruct I as (G & S). pose proof (s_cancel _ S _ _ Hn Ew) as Hc. rewrite Hd in Hc.
+    unfold running. destruct (nth_error (jobs st) j) as [jb|] eqn:Hjb; auto.
+    destruct (proc jb) eqn:Hp; auto. exfalso.
+    assert (Hreg : In j (reg st)).
+    { apply (job_running_registered st j jb (conj G S) Hjb).
+      pose proof (Forall_nth _ _ _ _ (g_jobs _ G) Hjb) as Hok. unfold job_ok in Hok.
+      intros Hwn. rewrite Hwn in Hok. intuition congruence. }
+    specialize (Hc j Hreg). unfold creq_at in Hc. rewrite Hjb in Hc.
+    destruct (creq_not_running st j jb (conj G S) Hjb Hc). congruence.
+Qed.
+
+Lemma run_creq sched : forall st st' j, creq_at st j = true -> run st sched = Some st' -> creq_at st' j = true.
+Proof.
+  induction sched; simpl; intros st st' j C H.
+  - inversion H; subst; auto.
+  - destruct (step st a) eqn:E; try discriminate. eapply IHsched; [|eauto]. eapply creq_mono; eauto.
+Qed.
+
+Lemma no_spawn_after_cancel cfgs waits sched st j :
+  run (init cfgs waits) sched = Some st -> ~ spawned_after_cancel j sched.
+Proof.
+  intros H (pre & post & k & -> & Hin).
+  destruct (run_split _ _ _ _ _ H) as (s1 & s2 & Ha & Hs & Hb).
+  assert (I2 : inv s2).
+  { eapply step_inv_pres; eauto. eapply run_inv; [apply init_inv|eauto]. }
+  pose proof (cancel_sets_creq _ _ _ _ Hs) as C2.
+  destruct (run_In _ _ _ _ Hb Hin) as (a & b & s3 & s4 & -> & Ha3 & Hs3 & _).
+  assert (I3 : inv s3) by (eapply run_inv; eauto).
+  pose proof (run_creq _ _ _ _ C2 Ha3) as C3.
+  apply step_jobs in Hs3. simpl in Hs3. destruct Hs3 as (jb & jb' & Hn & _ & Hw & _).
+  unfold creq_at in C3. rewrite Hn in C3.
+  destruct (creq_not_running _ _ _ I3 Hn C3). congruence.
 Qed.
 
 (* ------------------------------------------------------------------ cancel(): kill escalation and exception paths *)
 Lemma kill_kills jb : proc jb = PRun -> proc (kill jb) = PDead.
-Proof. intros H. rewrite kill_unfold. unfold kill0. rewrite H. reflexivity. Qed.
+Proof. intros H. rewrite kill_unfold. unfold fin0, cancel0, kill0, set_creq, set_slock. rewrite H. reflexivity. Qed.
